@@ -2,6 +2,7 @@ import FsnVerif.Proofs.InotifyLemmas
 import FsnVerif.Proofs.ALLemmas
 import FsnVerif.Proofs.DecodeLemmas
 import FsnVerif.Proofs.PathLemmas
+import FsnVerif.Proofs.PathShape
 /-!
 # C08 — Event names are spelled relative to the caller's Add argument (model side)
 
@@ -74,5 +75,30 @@ theorem clean_idempotent (p : Path) : clean (clean p) = clean p := clean_idem p
 the file system (no link is ever resolved when naming an event) -/
 theorem no_target_leak (w : Watch) (r : Raw) :
     nameOf w r = (if r.len > 0 then w.path ++ slash :: trimNul r.name else w.path) := rfl
+
+/-- the stored path is never the empty string (so no event name is empty or starts with the separator
+that `nameOf` inserts) -/
+theorem stored_path_nonempty (arg : Path) : clean arg ≠ [] := clean_ne_nil arg
+
+/-- the stored path is absolute exactly when the caller's argument is: a relative Add yields relative
+names, an absolute Add absolute ones — for every argument, whatever `.`/`..`/`//` it contains -/
+theorem stored_path_absolute_iff (arg : Path) :
+    (clean arg).head? = some slash ↔ arg.head? = some slash := clean_head_slash arg
+
+/-- and so is the **name of every event** of a watch stored under the cleaned argument -/
+theorem name_absolute_iff (w : Watch) (r : Raw) (arg : Path) (hw : w.path = clean arg) :
+    (nameOf w r).head? = some slash ↔ arg.head? = some slash := by
+  rw [no_target_leak, hw]
+  have hne := clean_ne_nil arg
+  have hh : ∀ t : Path, (clean arg ++ t).head? = (clean arg).head? := by
+    intro t; cases h : clean arg with
+    | nil => exact absurd h hne
+    | cons a as => simp
+  split
+  · rw [hh]; exact clean_head_slash arg
+  · exact clean_head_slash arg
+
+/-- non-vacuity: a relative argument with `..` and `//`, an entry name, a relative event name -/
+example : nameOf ⟨1, 0, clean [46, 46, 47, 47, 97], false⟩ ⟨1, 0x100, 0, 16, [98, 0, 0]⟩ = [46, 46, 47, 97, 47, 98] := by decide
 
 end C08
